@@ -24,7 +24,7 @@ ASSUMPTIONS = [
     "Modbus/TCP has no checksum: a same-length corrupted remainder may legitimately be accepted there (the property "
     "restricts clause (b) to the checksummed framings)",
 ]
-MUST = ["payloads_resembling_frame_headers", "reassembled_while_another_caller_queued", "reassembled_after_corrupt_answer", "reassembled_rtu", "reassembled_tcp", "reassembled_aa55", "partial_branch", "leftover_cleared", "late_second_piece",
+MUST = ["late_remainder_between_pieces_of_next_answer", "split_answers_with_wrong_mbap_length", "payloads_resembling_frame_headers", "reassembled_while_another_caller_queued", "reassembled_after_corrupt_answer", "reassembled_rtu", "reassembled_tcp", "reassembled_aa55", "partial_branch", "leftover_cleared", "late_second_piece",
         "wrong_second_piece_refused", "foreign_datagram_between_fragments", "both_pieces_delayed", "two_objects_fragmented", "other_timeouts", "aa55_checksum_wraps"]
 EXHAUSTIVE = {"quick": False, "thorough": True}
 EPS = 1e-6
@@ -64,6 +64,11 @@ class FragPeer(ScriptedPeer):
         sc = self.sc
         T = sc["T"]
         v = self.valid(req, n)
+        if sc.get("mbap_len") is not None and self.framing == "tcp":
+            # GoodWe firmware quirk (accepted by the library and pinned by its tests when unsplit): the MBAP length field of the answer
+            # is a copy of the request's (6), not the number of bytes that follow
+            v = v[:4] + int(sc["mbap_len"]).to_bytes(2, "big") + v[6:]
+        self.fulls = getattr(self, "fulls", []) + [v]
         pre = sc.get("pre")
         if pre and n == 1:          # transmission 1 is answered by a corrupted frame half a timeout late -> immediate retransmission
             b = bytearray(v)
@@ -91,6 +96,12 @@ class FragPeer(ScriptedPeer):
             return
         if n == 2 and sc.get("second_tx") == "remainder" and not pre:
             return self.send(s, self.v1[sc["split"]:], 0, n, 1)
+        if n == 2 and sc.get("second_tx") == "split" and not pre:
+            # the retransmission is answered in two pieces as well (other register contents by now); the LATE remainder of answer 1
+            # lands between them
+            k = sc["split"]
+            self.send(s, v[:k], 0, n, 1)
+            return self.send(s, v[k:], 0.7 * T, n, 2)
         return self.send(s, v, 0, n, 1)
 
     def other_frame(self, req, n):
@@ -138,7 +149,9 @@ def check_run(sc, run, part: Part):
                     acc += ps[j]
                     if acc == raw:
                         single = True
-        if not single:
+        # (a result that is byte for byte the unsplit answer to one of the transmissions is that answer, whichever datagrams carried
+        #  the bytes: a one-byte remainder of answer 1 can coincide with the last checksum byte of answer 2)
+        if not single and raw not in getattr(peer, "fulls", []):
             out.append((f"C07/{f}/combined-across-transmissions",
                         f"result {raw.hex()[:60]}.. is not a contiguous run of pieces sent for one transmission "
                         f"(split {sc['split']}, second piece '{sc['kind']}', second tx '{sc['second_tx']}')"))
@@ -357,6 +370,20 @@ def run_shard(spec):
                             sc["payload"] = pl_
                             run_case(sc, part)
                             part.count("payloads_resembling_frame_headers")
+            if HEADER[f] <= k < L:
+                # remainder of answer 1 delayed past the timeout (1.3 T); the retransmission's answer is split too, its second piece at
+                # 1.7 T: the late piece of answer 1 arrives between the two pieces of answer 2 (same lengths, other contents)
+                sc = scenario(f, spec["ka"], T, 2, count, k, "exact", 1.3, "split", spec["aa55_len"])
+                run_case(sc, part)
+                part.count("late_remainder_between_pieces_of_next_answer")
+            if f == "tcp" and k >= HEADER[f]:
+                # the answer carries the firmware's wrong MBAP length field (6, or 2 bytes too many): still reassembled exactly
+                for mlen in (6, 5 + 2 * count):
+                    for delay in (0.0, 0.5):
+                        sc = scenario(f, spec["ka"], T, 2, count, k, "exact", delay, "now", spec["aa55_len"])
+                        sc["mbap_len"] = mlen
+                        run_case(sc, part)
+                        part.count("split_answers_with_wrong_mbap_length")
             if f != "tcp" and (k in (HEADER[f], HEADER[f] + 1, L - 1) or k % 7 == 0):
                 # the fragmented answer belongs to the RETRANSMISSION that follows a corrupted answer delivered at T/2
                 for delay in (0.3, 0.7, 0.95):
